@@ -87,13 +87,13 @@ class LiteralToken(RegexpBaseToken):
         super().__init__(*args, *kwargs)
 
         if self.value[2]:
-            real_value = int(self.value[2])
-            if self.value[5]:
-                real_value += float(f'0.{self.value[5]}')
-            if self.value[7]:
+            if self.value[5] or (self.value[7] and int(self.value[7]) < 0):
+                # the decimal text as a whole denotes the nearest double
+                real_value = float(f'{self.value[2]}.{self.value[5] or 0}e{self.value[7] or 0}')
+            else:
                 # TODO in theory, the degree can be calculated using the expression
-                real_value *= 10 ** int(self.value[7])
-            real_value = str(real_value)
+                real_value = int(self.value[2]) * 10 ** int(self.value[7] or 0)
+            real_value = repr(real_value)
         elif self.value[1] or self.value[0] == '""':
             real_value = repr(self.value[1])
         elif self.value[8]:
